@@ -65,6 +65,15 @@ pub mod proofs {
     #[kani::proof]
     #[kani::unwind(7)]
     pub fn c15_conditional_shutdown() {
+        conditional_shutdown(3);
+    }
+    /// the same with histories of length 6
+    #[kani::proof]
+    #[kani::unwind(8)]
+    pub fn c15_conditional_shutdown_len6() {
+        conditional_shutdown(6);
+    }
+    fn conditional_shutdown(len: usize) {
         reg::init_globals();
         let status: c_int = kani::any();
         let cond = Arc::new(AtomicBool::new(false));
@@ -89,7 +98,7 @@ pub mod proofs {
         let mut c = false; // model of the condition
         let mut step = 0;
         let mut survived = 0;
-        while step < 3 {
+        while step < len {
             let ev: u8 = kani::any();
             kani::assume(ev < 3);
             if ev == 1 {
